@@ -631,6 +631,61 @@ func init() {
 		it.goPanicf(fr, "reflect: call of reflect.Value.Elem on %s Value", x.t.name)
 		return nil
 	}
+	// IsZero: every leaf of the value is its zero value (a symbolic conjunction over the leaves)
+	var isZero func(it *Interp, fr *frame, v Value) *Term
+	isZero = func(it *Interp, fr *frame, v Value) *Term {
+		switch x := v.(type) {
+		case *Term:
+			return mkBin(OpEq, x, mkConst(x.w, 0))
+		case float64:
+			return mkBool(x == 0 && !math.Signbit(x))
+		case float32:
+			return mkBool(x == 0 && !math.Signbit(float64(x)))
+		case complex128:
+			return mkBool(x == 0)
+		case Str:
+			return mkBool(len(x.b) == 0)
+		case Ptr:
+			return mkBool(x.cell == nil && x.sarr == nil)
+		case Slice:
+			return mkBool(x.obj == nil)
+		case *MapObj:
+			return mkBool(x == nil)
+		case FuncV:
+			return mkBool(x.fn == nil && x.bi == nil && x.native == nil)
+		case Iface:
+			return mkBool(x.t == nil)
+		case StructV:
+			r := tTrue
+			for _, f := range x.f {
+				r = mkAnd(r, isZero(it, fr, f))
+				if r.False() {
+					return r
+				}
+			}
+			return r
+		case ArrayV:
+			r := tTrue
+			for _, f := range x.a {
+				r = mkAnd(r, isZero(it, fr, f))
+				if r.False() {
+					return r
+				}
+			}
+			return r
+		case nil:
+			return tTrue
+		}
+		it.abort("unmodelled", fmt.Sprintf("reflect.Value.IsZero of %T", v))
+		return nil
+	}
+	intrinsics["(reflect.Value).IsZero"] = func(it *Interp, fr *frame, args []Value) Value {
+		x, ok := reflectPayload(args[0])
+		if !ok {
+			it.goPanicf(fr, "reflect: call of reflect.Value.IsZero on zero Value")
+		}
+		return isZero(it, fr, x.v)
+	}
 	intrinsics["(reflect.Value).NumField"] = func(it *Interp, fr *frame, args []Value) Value {
 		x := rvPayload(it, fr, args[0], "NumField")
 		return mkConst(64, uint64(len(x.v.(StructV).f)))
